@@ -557,3 +557,144 @@ def trap_index_lists(rng, top=12):
         [a, a + 2, a + 1, a + 3, a + 9], # block plus an outlier at the end
         [a + 9, a, a + 1, a + 2],        # outlier first
     ])
+
+
+# ---------------------------------------------------------------------------
+# size limits hidden in keyword defaults
+# ---------------------------------------------------------------------------
+
+ANCHORED_MODULES = [
+    'cell_type_mapper.utils.sparse_utils',
+    'cell_type_mapper.utils.csc_to_csr',
+    'cell_type_mapper.utils.csc_to_csr_parallel',
+    'cell_type_mapper.utils.anndata_utils',
+    'cell_type_mapper.utils.h5_utils',
+    'cell_type_mapper.utils.utils',
+    'cell_type_mapper.anndata_iterator.anndata_iterator',
+]
+SIZE_PARAM = __import__('re').compile(
+    r'(max_|_max|chunk|flush|elements|buffer|block|read|batch|at_a_time|'
+    r'n_per|step)', __import__('re').I)
+
+
+def _functions_of(mod):
+    import inspect
+    for name, obj in vars(mod).items():
+        if inspect.isfunction(obj) and obj.__module__ == mod.__name__:
+            yield name, obj
+        elif inspect.isclass(obj) and obj.__module__ == mod.__name__:
+            for n2, o2 in vars(obj).items():
+                if inspect.isfunction(o2):
+                    yield name + '.' + n2, o2
+
+
+def size_limit_defaults(threshold=10 ** 5):
+    """every keyword default of the anchored modules that is an integer
+    >= threshold and whose name says it limits how much is read / written /
+    buffered at a time: [(module, function, parameter, value)]"""
+    import importlib
+    import inspect
+    out = []
+    for mn in ANCHORED_MODULES:
+        try:
+            mod = importlib.import_module(mn)
+        except Exception:
+            continue
+        for qn, fn in _functions_of(mod):
+            try:
+                sig = inspect.signature(fn)
+            except (TypeError, ValueError):
+                continue
+            for pn, par in sig.parameters.items():
+                d = par.default
+                if isinstance(d, (int, np.integer)) and \
+                        not isinstance(d, bool) and d >= threshold and \
+                        SIZE_PARAM.search(pn):
+                    out.append((mn, qn, pn, int(d)))
+    return out
+
+
+@contextlib.contextmanager
+def lowered_defaults(value=7, threshold=10 ** 5):
+    """temporarily replace every such default by a tiny value, so that a
+    piecewise / buffered code path that only starts beyond 10**5 .. 10**9
+    elements is exercised by small inputs.  A size limit must not change what
+    is read, so every predicate of the suites applies unchanged.  Yields the
+    list of lowered (module, function, parameter, old value)."""
+    import importlib
+    import inspect
+    saved = []
+    lowered = []
+    for mn, qn, pn, old in size_limit_defaults(threshold):
+        mod = importlib.import_module(mn)
+        obj = mod
+        for part in qn.split('.'):
+            obj = vars(obj)[part] if inspect.isclass(obj) else getattr(obj,
+                                                                        part)
+        fn = obj
+        sig = inspect.signature(fn)
+        names = [p for p in sig.parameters.values()
+                 if p.default is not inspect.Parameter.empty and
+                 p.kind in (p.POSITIONAL_ONLY, p.POSITIONAL_OR_KEYWORD)]
+        saved.append((fn, fn.__defaults__, fn.__kwdefaults__))
+        if fn.__defaults__ and pn in [p.name for p in names]:
+            idx = [p.name for p in names].index(pn)
+            dl = list(fn.__defaults__)
+            dl[idx] = value
+            fn.__defaults__ = tuple(dl)
+        elif fn.__kwdefaults__ and pn in fn.__kwdefaults__:
+            kd = dict(fn.__kwdefaults__)
+            kd[pn] = value
+            fn.__kwdefaults__ = kd
+        lowered.append((mn, qn, pn, old))
+    try:
+        yield lowered
+    finally:
+        for fn, d, kd in saved:
+            fn.__defaults__ = d
+            fn.__kwdefaults__ = kd
+
+
+def write_big_csr_h5ad(path, n, m, seed, layer=None, encoding='csr'):
+    """an h5ad-shaped HDF5 file (group with encoding-type / shape attrs, as
+    AnnDataRowIterator needs) holding an n x m uint8 matrix with n*m - n//3
+    stored entries, written directly with h5py (anndata would be slow at this
+    size); returns the dense matrix"""
+    rs = np.random.default_rng(seed)
+    keep = np.ones((n, m), dtype=bool)
+    rows0 = np.arange(0, n, 3)
+    keep[rows0, rs.integers(0, m, len(rows0))] = False
+    nnz = int(keep.sum())
+    vals = ((np.arange(nnz, dtype=np.int64) * 7919 + seed) % 251 + 1).astype(
+        np.uint8)
+    dense = np.zeros((n, m), dtype=np.uint8)
+    dense[keep] = vals
+    key = layer_key(layer)
+    with h5py.File(path, 'w') as f:
+        if key != 'X':
+            gx = f.create_group('X')
+            gx.attrs['encoding-type'] = 'csr_matrix'
+            gx.attrs['encoding-version'] = '0.1.0'
+            gx.attrs['shape'] = np.array([n, m])
+            gx.create_dataset('indptr', data=np.zeros(n + 1, dtype=np.int32))
+            gx.create_dataset('indices', shape=(0,), dtype=np.int32)
+            gx.create_dataset('data', shape=(0,), dtype=np.uint8)
+        g = f.create_group(key)
+        g.attrs['encoding-version'] = '0.1.0'
+        g.attrs['shape'] = np.array([n, m])
+        if encoding == 'csr':
+            g.attrs['encoding-type'] = 'csr_matrix'
+            g.create_dataset('indptr', data=np.concatenate(
+                [[0], np.cumsum(keep.sum(axis=1))]).astype(np.int64))
+            g.create_dataset('indices', data=np.nonzero(keep)[1].astype(
+                np.int32))
+            g.create_dataset('data', data=vals)
+        else:
+            kt = np.ascontiguousarray(keep.T)
+            g.attrs['encoding-type'] = 'csc_matrix'
+            g.create_dataset('indptr', data=np.concatenate(
+                [[0], np.cumsum(kt.sum(axis=1))]).astype(np.int64))
+            g.create_dataset('indices', data=np.nonzero(kt)[1].astype(
+                np.int32))
+            g.create_dataset('data', data=np.ascontiguousarray(dense.T)[kt])
+    return dense
